@@ -63,7 +63,7 @@ def remove_unused_self_cls(source: str) -> str:
                     continue
                 decorator = "staticmethod"
                 delete_decorators.add("classmethod")
-            funcdef_copy = copy.copy(funcdef)
+            funcdef_copy = copy.deepcopy(funcdef)  # The parsed tree is cached and shared
             funcdef_copy.lineno = min(x.lineno for x in ast.walk(funcdef) if hasattr(x, "lineno"))
             funcdef_copy.decorator_list = [
                 dec
@@ -78,7 +78,7 @@ def remove_unused_self_cls(source: str) -> str:
                     lineno=funcdef.lineno - 1,
                     col_offset=funcdef.col_offset,
             ),)
-            args = funcdef.args.posonlyargs or funcdef.args.args
+            args = funcdef_copy.args.posonlyargs or funcdef_copy.args.args
             if args:
                 del args[0]
             if decorator == "classmethod":
@@ -222,9 +222,12 @@ def fix_unconventional_class_definitions(source: str) -> str:
 
     {{ClassName}}.{{attr}} = {{value}}
     """
-    template = core.compile_template(template)
-    template[0].bases = list
-    template[0].decorator_list = list
+    # Compiled templates are cached and shared, so they are copied before they are modified.
+    classdef_template, *other_templates = core.compile_template(template)
+    classdef_template = copy.copy(classdef_template)
+    classdef_template.bases = list
+    classdef_template.decorator_list = list
+    template = [classdef_template, *other_templates]
 
     transaction = 0
     root = core.parse(source)
